@@ -431,6 +431,8 @@ class Executor:
             if isinstance(b, VTuple) and len(b.items) == 2 and all(as_int_term(i) is not None for i in b.items):
                 return z3.And(z3.Not(a.isint), a.lo == as_int_term(b.items[0]), a.hi == as_int_term(b.items[1]))
             return z3.BoolVal(False)
+        if (isinstance(a, VItem) and isinstance(b, (VPyList, VTuple, VNone))) or (isinstance(b, VItem) and isinstance(a, (VPyList, VTuple, VNone))):
+            return z3.BoolVal(False)      # an opaque item stands for one XDM item: never a Python list, tuple or None
         ra, rb = as_real_term(a), as_real_term(b)
         ia, ib = as_int_term(a), as_int_term(b)
         if ia is not None and ib is not None:
